@@ -18,6 +18,12 @@ MUT = {
  "c11_timeout_div_1024": ("client.py", "self.timeout = float(timeout) / 1000.0  # msecs to secs", "self.timeout = float(timeout) / 1024.0  # msecs to secs"),
  "c11_sum_instead_of_max": ("client.py", "            timeout = max(self.timeout, min_timeout)\n\n        # Make the request", "            timeout = self.timeout + min_timeout\n\n        # Make the request"),
  "c11_dot_only_when_connected_first": ("brokerclient.py", "        if self.proto:\n            log.debug(\"%r Disconnecting from %r\", self, self.proto.transport.getPeer())\n            self.proto.transport.loseConnection()", "        if self.proto and not self.requests:\n            log.debug(\"%r Disconnecting from %r\", self, self.proto.transport.getPeer())\n            self.proto.transport.loseConnection()"),
+ "aud_g1_aware_bypasses_timer": ("client.py", "            d = self._make_request_to_broker(broker, requestId, request, expectResponse=expectResponse)\n            inFlight.append(d)", "            d = broker.makeRequest(requestId, request, expectResponse)\n            inFlight.append(d)"),
+ "aud_g2_coordinator_drops_kwargs": ("client.py", "            broker, request_id, encoded_request, expectResponse=True, **kwargs\n", "            broker, request_id, encoded_request, expectResponse=True\n"),
+ "aud_h1_reset_keeps_coordinator_cache": ("client.py", "        self.topic_errors.clear()\n        self._group_to_coordinator.clear()\n", "        self.topic_errors.clear()\n"),
+ "aud_f3_backoff_not_cancelled": ("client.py", "yield self._cancel_on_close(task.deferLater(self.reactor, delay, lambda: None))", "yield task.deferLater(self.reactor, delay, lambda: None)"),
+ "aud_h2_boot_conn_not_closed_at_close": ("client.py", "            finally:\n                protocol.transport.loseConnection()", "            finally:\n                if not self._closing:\n                    protocol.transport.loseConnection()"),
+ "aud_g4_timer_delayed": ("client.py", "        dc = self.reactor.callLater(timeout, _mrtb_timeout)\n", "        dc = self.reactor.callLater(timeout, _mrtb_timeout)\n        dc.delay(1.0)\n"),
  # ---- C20
  "c20_no_boot_cancel": ("client.py", "        for d in list(self._bootstrap_ds):\n            d.cancel()\n", ""),
  "c20_no_reset": ("client.py", "        # clean up other outstanding operations\n        self.reset_all_metadata()\n", ""),
